@@ -488,6 +488,9 @@ impl AddressLookupServices {
     ///
     /// If there is historical Address Lookup data, it will be published immediately on this service.
     pub fn add_boxed(&self, service: Box<dyn AddressLookup>) {
+        // Hold the registry lock from reading the last data until the service is registered:
+        // a concurrent `publish` then either already stored its data or will see the service.
+        let mut services = self.services.write().expect("poisoned");
         {
             let data = self.last_data.read().expect("poisoned");
             if let Some(data) = &*data {
@@ -496,7 +499,7 @@ impl AddressLookupServices {
         }
         #[cfg(feature = "verif-hooks")]
         iroh_base::verif_hooks::point("addr_lookup:add:before_push");
-        self.services.write().expect("poisoned").push(service);
+        services.push(service);
     }
 
     /// Are there any services configured?
@@ -522,16 +525,16 @@ impl AddressLookupServices {
             None => Cow::Borrowed(data),
         };
         let services = self.services.read().expect("poisoned");
+        // Taken before notifying the services and held until the data is stored, so that
+        // concurrent publishes are serialised and the stored data is what the services got last.
+        let mut last_data = self.last_data.write().expect("poisoned");
         for service in &*services {
             service.publish(&data);
         }
 
         #[cfg(feature = "verif-hooks")]
         iroh_base::verif_hooks::point("addr_lookup:publish:before_store");
-        self.last_data
-            .write()
-            .expect("poisoned")
-            .replace(data.into_owned());
+        last_data.replace(data.into_owned());
     }
 
     /// Resolves the addressing information for an [`EndpointId`] across all configured services.
